@@ -409,6 +409,19 @@ func moveOutFile(w *bytes.Buffer, param *syntax.StructMember,
 	// If file doesn't exist (e.g. stage just didn't create it)
 	// then report null
 	if info, err := os.Lstat(filePath); os.IsNotExist(err) {
+		// Unless an earlier run was interrupted after it had moved the
+		// file to outs/ but before it linked it back.
+		outPath := path.Join(outsPath, param.GetOutFilename())
+		if _, oerr := os.Lstat(outPath); oerr == nil {
+			if relPath, rerr := filepath.Rel(
+				filepath.Dir(filePath), outPath); rerr == nil &&
+				os.Symlink(relPath, filePath) == nil {
+				if b, merr := json.Marshal(outPath); merr == nil {
+					_, err := w.Write(b)
+					return err
+				}
+			}
+		}
 		_, err := w.Write(nullBytes)
 		return err
 	} else if err != nil {
